@@ -122,6 +122,9 @@ func run(cs fw.Case, tier string, rec *fw.Recorder) {
 	if p.GovReal {
 		m.opConfigReal()
 	}
+	if p.Reimport && !m.dead {
+		m.reimportThenSales()
+	}
 	for m.step = 0; m.step < p.Steps && !m.dead; m.step++ {
 		if m.c.Height%500 == 499 {
 			w.KeepAlive()
@@ -179,7 +182,7 @@ func (m *mon) track(addr string) {
 }
 
 func (m *mon) weights() map[string]int {
-	w := map[string]int{"add": 20, "sale": 20, "activate": 20, "auth": 4, "legacy": 2, "config": 9, "fund": 6, "gift": 4, "spend": 5, "travel": 6, "probe": 4}
+	w := map[string]int{"add": 20, "sale": 20, "activate": 20, "auth": 4, "legacy": 2, "config": 9, "fund": 6, "gift": 4, "spend": 5, "travel": 6, "probe": 4, "reimport": 2}
 	switch m.p.Profile {
 	case "sale":
 		w["sale"], w["add"], w["fund"] = 34, 8, 10
@@ -193,7 +196,7 @@ func (m *mon) weights() map[string]int {
 
 func (m *mon) randomOp() {
 	w := m.weights()
-	names := []string{"add", "sale", "activate", "auth", "legacy", "config", "fund", "gift", "spend", "travel", "probe"}
+	names := []string{"add", "sale", "activate", "auth", "legacy", "config", "fund", "gift", "spend", "travel", "probe", "reimport"}
 	tot := 0
 	for _, n := range names {
 		tot += w[n]
@@ -223,6 +226,8 @@ func (m *mon) randomOp() {
 			case "travel":
 				dts := []time.Duration{time.Hour, 24 * time.Hour, 30 * 24 * time.Hour, 182 * 24 * time.Hour, 365 * 24 * time.Hour, 3 * 365 * 24 * time.Hour, 37*time.Hour + 11*time.Second}
 				m.opTimeTravel(dts[m.r.Intn(len(dts))])
+			case "reimport":
+				m.opReimport("walk")
 			case "probe":
 				if ks := m.L.actKeys(); len(ks) > 0 {
 					m.probe(m.L.act[ks[m.r.Intn(len(ks))]])
